@@ -16,7 +16,9 @@ import (
 	"fmt"
 	"os"
 	"path/filepath"
+	"sort"
 	"strings"
+	"sync"
 	"sync/atomic"
 
 	"github.com/nspcc-dev/neofs-node/pkg/local_object_storage/blobstor/common"
@@ -89,7 +91,7 @@ type sys struct {
 	fs       *sw.FaultyStorage
 	metaFail atomic.Bool
 	key      string
-	lastFail string // fault of the most recent step whose SetMode returned an error
+	lastErr  bool // the most recent SetMode returned an error
 	steps    []string
 }
 
@@ -186,17 +188,27 @@ func (s *sys) components() string {
 	return out
 }
 
-// consistent: every component is in the mode the shard reports.
-func (s *sys) consistent() bool {
+// deviation names the primary way the components differ from the mode the shard reports
+// ("" = every component is in the reported mode).
+func (s *sys) deviation() string {
 	m := s.w.Sh.GetMode()
-	want := "meta=" + mname(m) + " blob=rw"
-	if m.ReadOnly() {
-		want = "meta=" + mname(m) + " blob=ro"
+	mm, mo, wm := s.w.Sh.VerifC43ComponentModes()
+	ro, closed := s.fs.State()
+	switch {
+	case !m.NoMetabase() && !mo:
+		return "metabase-handle-closed"
+	case !m.ReadOnly() && ro:
+		return "blobstor-read-only-under-writable-mode"
+	case closed:
+		return "blobstor-closed"
+	case m.ReadOnly() && !ro:
+		return "blobstor-writable-under-read-only-mode"
+	case mm != m:
+		return "metabase-in-other-mode"
+	case s.c.WC && wm != m:
+		return "write-cache-in-other-mode"
 	}
-	if s.c.WC {
-		want += " wc=" + mname(m)
-	}
-	return s.components() == want
+	return ""
 }
 
 func (s *sys) computeKey() {
@@ -238,7 +250,7 @@ func (s *sys) Apply(i int) (string, bool) {
 			die("%v", err)
 		}
 	}
-	err := s.w.SetMode(m)
+	err := safe(func() error { return s.w.SetMode(m) })
 	// the fault lasts for this step only
 	s.metaFail.Store(false)
 	s.fs.Arm(nil, nil, nil, nil)
@@ -251,9 +263,9 @@ func (s *sys) Apply(i int) (string, bool) {
 		}
 	}
 	obs := "ok"
+	s.lastErr = err != nil
 	if err != nil {
 		obs = "error"
-		s.lastFail = faultName[f]
 	}
 	s.steps = append(s.steps, fmt.Sprintf("SetMode(%s)+%s -> %s; now reported=%s %s", mname(m), faultName[f], obs, mname(s.w.Sh.GetMode()), s.components()))
 	s.computeKey()
@@ -264,10 +276,27 @@ func (s *sys) Key() string { return s.key }
 
 // ---------- probe battery ----------
 
+type panicErr struct{ v any }
+
+func (p panicErr) Error() string { return fmt.Sprintf("PANIC: %v", p.v) }
+
+// safe runs one shard call and turns a panic inside the implementation into an error.
+func safe(f func() error) (err error) {
+	defer func() {
+		if x := recover(); x != nil {
+			err = panicErr{x}
+		}
+	}()
+	return f()
+}
+
 func cls(err error) string {
+	var pe panicErr
 	switch {
 	case err == nil:
 		return "ok"
+	case errors.As(err, &pe):
+		return "PANIC"
 	case errors.Is(err, shard.ErrReadOnlyMode):
 		return "ErrReadOnlyMode"
 	case errors.Is(err, shard.ErrDegradedMode):
@@ -286,7 +315,8 @@ type probe struct {
 }
 
 func (s *sys) get(a oid.Address, want []byte) (string, string) {
-	o, err := s.w.Sh.Get(a, false)
+	var o *object.Object
+	err := safe(func() (e error) { o, e = s.w.Sh.Get(a, false); return })
 	if err != nil {
 		return cls(err), err.Error()
 	}
@@ -315,10 +345,10 @@ func (s *sys) battery(m mode.Mode, tag string) []probe {
 		_ = addr.DecodeString(a)
 		g, d := s.get(addr, b)
 		exp("Get(stored)", g, d, "ok")
-		_, err := sh.Head(addr, false)
+		err := safe(func() error { _, e := sh.Head(addr, false); return e })
 		exp("Head(stored)", cls(err), fmt.Sprint(err), "ok")
 	}
-	_, err := sh.List()
+	err := safe(func() error { _, e := sh.List(); return e })
 	if m.NoMetabase() {
 		exp("List", cls(err), fmt.Sprint(err), "ErrDegradedMode")
 	} else {
@@ -327,19 +357,20 @@ func (s *sys) battery(m mode.Mode, tag string) []probe {
 	p1 := sw.ObjSpec{Cnr: "A", Label: "probe1-" + tag, Size: 21}
 	p2 := sw.ObjSpec{Cnr: "B", Label: "probe2-" + tag, Size: 5}
 	o1, o2 := sw.NewObject(p1), sw.NewObject(p2)
-	e1, e2 := sh.Put(o1, nil), sh.Put(o2, nil)
+	e1 := safe(func() error { return sh.Put(o1, nil) })
+	e2 := safe(func() error { return sh.Put(o2, nil) })
 	switch {
 	case m.ReadOnly():
 		exp("Put", cls(e1), fmt.Sprint(e1), "ErrReadOnlyMode")
 		exp("Put", cls(e2), fmt.Sprint(e2), "ErrReadOnlyMode")
-		err = sh.Delete(sw.CID("A"), []oid.ID{sw.OID("a1")})
+		err = safe(func() error { return sh.Delete(sw.CID("A"), []oid.ID{sw.OID("a1")}) })
 		exp("Delete", cls(err), fmt.Sprint(err), "ErrReadOnlyMode")
-		err = sh.MarkGarbage(sw.CID("A"), []oid.ID{sw.OID("a1")}, meta.GarbageMarkDefault)
+		err = safe(func() error { return sh.MarkGarbage(sw.CID("A"), []oid.ID{sw.OID("a1")}, meta.GarbageMarkDefault) })
 		exp("MarkGarbage", cls(err), fmt.Sprint(err), "ErrReadOnlyMode")
-		err = sh.InhumeContainer(sw.CID("B"))
+		err = safe(func() error { return sh.InhumeContainer(sw.CID("B")) })
 		exp("InhumeContainer", cls(err), fmt.Sprint(err), "ErrReadOnlyMode")
 		if s.c.WC {
-			err = sh.FlushWriteCache(false)
+			err = safe(func() error { return sh.FlushWriteCache(false) })
 			exp("FlushWriteCache", cls(err), fmt.Sprint(err), "ErrReadOnlyMode")
 		}
 	default:
@@ -349,8 +380,10 @@ func (s *sys) battery(m mode.Mode, tag string) []probe {
 			g, d := s.get(o1.Address(), o1.Marshal())
 			exp("Get(just put)", g, d, "ok")
 		}
-		err = sh.Delete(o2.GetContainerID(), []oid.ID{o2.GetID()})
-		err2 := sh.MarkGarbage(o1.GetContainerID(), []oid.ID{o1.GetID()}, meta.GarbageMarkRedundant)
+		err = safe(func() error { return sh.Delete(o2.GetContainerID(), []oid.ID{o2.GetID()}) })
+		err2 := safe(func() error {
+			return sh.MarkGarbage(o1.GetContainerID(), []oid.ID{o1.GetID()}, meta.GarbageMarkRedundant)
+		})
 		if m.NoMetabase() {
 			exp("Delete", cls(err), fmt.Sprint(err), "ErrDegradedMode")
 			exp("MarkGarbage", cls(err2), fmt.Sprint(err2), "ErrDegradedMode")
@@ -362,7 +395,7 @@ func (s *sys) battery(m mode.Mode, tag string) []probe {
 				exp("Get(just deleted)", g, d, "not-found")
 			}
 			if s.c.WC {
-				err = sh.FlushWriteCache(false)
+				err = safe(func() error { return sh.FlushWriteCache(false) })
 				exp("FlushWriteCache", cls(err), fmt.Sprint(err), "ok")
 			}
 		}
@@ -370,14 +403,31 @@ func (s *sys) battery(m mode.Mode, tag string) []probe {
 	return out
 }
 
-func (s *sys) Check() (string, string) {
-	m := s.w.Sh.GetMode()
-	how := "all-components-in-reported-mode"
-	if !s.consistent() {
-		how = "partial-switch"
-		if s.lastFail != "" {
-			how += "(" + s.lastFail + ")"
+var (
+	fpMu  sync.Mutex
+	fpAll = map[string]string{}
+)
+
+func (s *sys) Check() (fp string, what string) {
+	defer func() {
+		if fp != "" {
+			fpMu.Lock()
+			if old, ok := fpAll[fp]; !ok || len(what) < len(old) {
+				fpAll[fp] = what
+			}
+			fpMu.Unlock()
 		}
+	}()
+	m := s.w.Sh.GetMode()
+	// class = did the last SetMode claim success? + what is off underneath
+	how := "last-SetMode-returned-ok"
+	if s.lastErr {
+		how = "last-SetMode-returned-error"
+	}
+	if d := s.deviation(); d != "" {
+		how += ":" + d
+	} else {
+		how += ":all-components-in-reported-mode"
 	}
 	trail := strings.Join(s.steps, " ; ")
 	if bad := s.battery(m, "x"); len(bad) > 0 {
@@ -386,7 +436,7 @@ func (s *sys) Check() (string, string) {
 			fmt.Sprintf("[%s] %s || shard reports %s (%s) but %s answered %s, the mode table says %s (%s); %d probe(s) off", s.c.name(), trail, mname(m), s.components(), p.Name, p.Got, p.Want, p.Detail, len(bad))
 	}
 	// back to read-write, no faults
-	if err := s.w.SetMode(mode.ReadWrite); err != nil {
+	if err := safe(func() error { return s.w.SetMode(mode.ReadWrite) }); err != nil {
 		return how + ":return-to-read-write-refused", fmt.Sprintf("[%s] %s || final SetMode(RW): %v", s.c.name(), trail, err)
 	}
 	if got := s.w.Sh.GetMode(); got != mode.ReadWrite {
@@ -458,11 +508,21 @@ func main() {
 		r.Set("depth_completed:"+c.name(), res.DepthCompleted)
 	}
 	r.Set("distinct_observation_classes", obs)
+	var fps []string
+	for k := range fpAll {
+		fps = append(fps, k)
+	}
+	sort.Strings(fps)
+	r.Set("violation_classes", fps)
+	if os.Getenv("C43_LIST") != "" {
+		for _, k := range fps {
+			fmt.Fprintf(os.Stderr, "CLASS %s\n   e.g. %s\n", k, fpAll[k])
+		}
+	}
 	r.Exhaustive(exhaustive)
 	r.Rule(fmt.Sprintf("2 shards (without / with write-cache holding flushed and cached objects) x BFS over SetMode(m), m in {RW, RO, DEG, DRO}, each with one injected failure in {none, metabase open, blobstor close, blobstor open, blobstor init, write-cache directory} up to depth %d, deduplicated by (reported mode, actual component modes, on-disk files); after every step the probe battery and the return-to-read-write check run on that instance; non-trivial = new state", maxDepth))
 	r.Assume("probe objects accepted in degraded mode (no metabase) are not required to be visible after returning to read-write (docs/shard-modes.md warns about that mode)",
 		"failures are injected at the component boundary: bbolt OpenFile hook, a common.Storage wrapper around the FSTree, a regular file in place of the write-cache directory; one failure per step, healed before the next step",
 		"single-threaded: no requests race with the mode change")
-	_ = object.TypeRegular
 	finish()
 }
